@@ -65,7 +65,12 @@ fn real_now() -> Ts {
 }
 
 fn to_system_time(t: Ts) -> SystemTime {
-    UNIX_EPOCH + Duration::new(t.0 as u64, t.1 as u32)
+    if t.0 < 0 {
+        // before 1970: seconds below zero, nanoseconds counted forward from there
+        UNIX_EPOCH - Duration::new((-t.0) as u64, 0) + Duration::new(0, t.1 as u32)
+    } else {
+        UNIX_EPOCH + Duration::new(t.0 as u64, t.1 as u32)
+    }
 }
 
 fn ts_json(t: Ts) -> Value {
@@ -362,6 +367,13 @@ impl Prop for PTime {
         let mut plan = json!({"ea": off(rng), "em": off(rng), "ra": off(rng), "rm": off(rng), "gap_us": rng.below(3) * 1500,
                           "now_rel": *rng.pick(&["real", "c", "m", "a", "c"]), "now_off": off(rng)});
         plan["dst"] = json!(rng.chance(1, 3));
+        // now and then the entry or the reference was last modified / read before 1970
+        if rng.chance(1, 6) {
+            let k = *rng.pick(&["em", "rm", "ea", "ra"]);
+            plan[k] = json!([1_900_000_000i64 + rng.below(200_000_000) as i64, rng.below(1_000_000_000)]);
+            plan["dst"] = json!(false);
+            plan["now_rel"] = json!("real");
+        }
         if rng.chance(1, 6) {
             plan["selfref"] = json!(true);
         } else if rng.chance(1, 3) {
